@@ -126,7 +126,10 @@ void XBW::idToStr(uint id, uint *pos, uchar **v, uint cnt) const {
 
 void XBW::subPathSearch(const uchar *qry, const uint ql, uint *left,
                         uint *right) const {
-  if (ql <= 1) {
+  // Only the empty path is matched by every node. A path of one symbol is
+  // answered below: it is the whole block of nodes whose parent is labelled
+  // qry[0] (the loop is simply not entered)
+  if (ql == 0) {
     *left = 0;
     *right = nodesCount - 1;
     return;
